@@ -144,7 +144,7 @@ def mk_semver(tag, maxpre):
         for p in pre[1:]: s = s + '.' + p
     if choose(2, tag + 'build'):
         s = s + '+' + sym_str(1, tag + 'b', alphabet='019a.-')
-    return s, list(comps) + [0] * (3 - ncomp), pre
+    return s, list(comps) + [0] * (3 - ncomp), pre, ncomp
 
 
 def ident_kind(x):
@@ -153,7 +153,7 @@ def ident_kind(x):
 
 
 def ref_semver_cmp(a, b):
-    (_, ca, pa), (_, cb, pb) = a, b
+    (ca, pa), (cb, pb) = a[1:3], b[1:3]
     for x, y in zip(ca, cb):
         if decide(x < y): return -1
         if decide(x > y): return 1
@@ -205,9 +205,9 @@ def ob_gate(opi):
         got = V.cargo_parse(op + r[0])(v[0])
         if v[2] and not r[2]:
             check(eq(got, False), 'pre-release never satisfies a requirement naming no pre-release'); cover('gated')
-        elif op in ('<', '>', '>=', '=') and len(r[1]) == 3:
+        elif op in ('<', '<=', '>', '>=', '=') and len(r[1]) == 3 and (op != '<=' or r[3] == 3):      # a partial '<=1.2' means '<1.3.0' (list[...] obligations); with a pre-release it is not a Cargo requirement at all
             e = ref_semver_cmp(v, (r[0], r[1], r[2]))
-            exp = {'<': e < 0, '>': e > 0, '>=': e >= 0, '=': e == 0}[op]
+            exp = {'<': e < 0, '<=': e <= 0, '>': e > 0, '>=': e >= 0, '=': e == 0}[op]
             check(eq(got, exp), 'comparison requirement follows the section 11 order'); cover('ordered')
     return h
 
@@ -383,7 +383,7 @@ def obligations(tier):
     out.append(Obligation('semver-order', ob_order(1 if tier == 'quick' else 2),
                           dict(components='1-3 of 0..99', prerelease_identifiers='<=%d of 1-2 chars over %s' % (1 if tier == 'quick' else 2, IDA), build='optional'),
                           labels=('pre', 'release'), classify=classify_semver, max_paths=3000000))
-    for opi in (3, 7) if tier == 'quick' else range(len(OPS)):
+    for opi in (3, 5, 7) if tier == 'quick' else range(len(OPS)):
         out.append(Obligation('prerelease-gate[%s]' % (OPS[opi] or 'bare'), ob_gate(opi), dict(op=OPS[opi]), labels=('gated',), classify=classify_semver, max_paths=2000000))
     for d in (1,) if tier == 'quick' else (1, 2):
         out.append(Obligation('cfg[depth %d]' % d, ob_cfg(d), dict(depth=d, args='<=2', names='1-2 chars over ' + NAMEA), labels=('id', 'eq', 'not', 'any', 'all'), max_paths=3000000))
